@@ -852,3 +852,75 @@ pub fn verif_best_split_classifier<T: RealNumber, M: Matrix<T>>(
         )
     })
 }
+
+/// Verification hook: result of one growth step (`find_best_cutoff` + `split`) from an arbitrary state.
+#[cfg(feature = "verif")]
+#[derive(Debug)]
+pub struct VerifSplitStep<T> {
+    /// did `find_best_cutoff` find a split for the node
+    pub cutoff_found: bool,
+    /// did `split` create the two children
+    pub split_done: bool,
+    /// (feature, threshold) of the node after the step
+    pub split: Option<(usize, T)>,
+    /// tree depth recorded after the step
+    pub depth: u16,
+    /// number of nodes after the step
+    pub n_nodes: usize,
+    /// class indices predicted by the true / false child (valid if `split_done`)
+    pub child_outputs: (usize, usize),
+    /// (node id, level, samples) of every visitor queued for further growth
+    pub queued: Vec<(usize, u16, Vec<usize>)>,
+}
+
+/// Verification hook: run one growth step of the classification tree on a node holding `samples`, at `level`.
+#[cfg(feature = "verif")]
+pub fn verif_split_step_classifier<T: RealNumber, M: Matrix<T>>(
+    x: &M,
+    yi: &[usize],
+    k: usize,
+    samples: Vec<usize>,
+    level: u16,
+    parameters: DecisionTreeClassifierParameters,
+) -> VerifSplitStep<T> {
+    let mut rng = rand::rngs::mock::StepRng::new(0, 1);
+    let (_, num_attributes) = x.shape();
+    let mut order: Vec<Vec<usize>> = Vec::new();
+    for i in 0..num_attributes {
+        order.push(x.get_col_as_vec(i).quick_argsort_mut());
+    }
+    let mut count = vec![0; k];
+    for i in 0..yi.len() {
+        count[yi[i]] += samples[i];
+    }
+    let mut tree = DecisionTreeClassifier {
+        nodes: vec![Node::new(0, which_max(&count))],
+        parameters,
+        num_classes: k,
+        classes: vec![T::zero(); k],
+        depth: 0,
+    };
+    let mut visitor = NodeVisitor::<T, M>::new(0, samples, &order, x, yi, level);
+    let mut queue: LinkedList<NodeVisitor<'_, T, M>> = LinkedList::new();
+    let cutoff_found = tree.find_best_cutoff(&mut visitor, num_attributes, &mut rng);
+    let mut split_done = false;
+    if cutoff_found {
+        split_done = tree.split(visitor, num_attributes, &mut queue, &mut rng);
+    }
+    let split = tree.nodes[0].split_value.map(|v| (tree.nodes[0].split_feature, v));
+    let child_outputs = if split_done {
+        (tree.nodes[1].output, tree.nodes[2].output)
+    } else {
+        (0, 0)
+    };
+    let queued = queue.iter().map(|v| (v.node, v.level, v.samples.clone())).collect();
+    VerifSplitStep {
+        cutoff_found,
+        split_done,
+        split,
+        depth: tree.depth,
+        n_nodes: tree.nodes.len(),
+        child_outputs,
+        queued,
+    }
+}
